@@ -1,12 +1,14 @@
 package vuego
 
 import (
+	"strconv"
 	"strings"
 )
 
 // C07 — layout chains nest innermost-first, apply the default only when due, and end.
 
 //verif:harness VerifC07_Graph quick.maxpaths=60000 thorough.maxpaths=400000 timeout=3000 steps=60000000 depth=400
+//verif:harness VerifC07_Limit quick.maxpaths=20000 thorough.maxpaths=100000 timeout=2400 steps=200000000
 //verif:harness VerifC07_NoLayout quick.maxpaths=20000 thorough.maxpaths=100000 timeout=1800
 //verif:harness VerifC07_FilesChange quick.maxpaths=20000 thorough.maxpaths=100000 timeout=1800
 
@@ -15,7 +17,8 @@ import (
 var zzC07Layouts = []string{"a.vuego", "layouts/a.vuego", "layouts/b.vuego", "layouts/base.vuego", "dir/a.vuego"}
 
 // values the `layout` key of a file may take
-var zzC07LayoutVals = []string{"", "a", "b", "a.vuego", "base", "missing", "../p"}
+// ("b" comes last: the quick tier leaves it out, it differs from "a" by name only)
+var zzC07LayoutVals = []string{"", "a", "a.vuego", "base", "missing", "../p", "b"}
 
 func zzC07Marker(file string) string {
 	return strings.ReplaceAll(strings.ReplaceAll(file, "/", "_"), ".vuego", "")
@@ -68,6 +71,7 @@ func VerifC07_Graph() {
 	layoutOf := map[string]string{}
 	ownKeys := map[string]bool{}
 	nfiles := zzBound("layoutfiles", 4, 5)
+	nvals := zzBound("layoutvalues", 6, 7)
 	universe := map[string]bool{}
 	for _, f := range zzC07Layouts[:nfiles] {
 		universe[f] = true
@@ -75,7 +79,7 @@ func VerifC07_Graph() {
 	// the page lives at top level or in dir/
 	// the page lives at top level or in dir/
 	page := []string{"p.vuego", "dir/p.vuego"}[zzChoice("pagedir", 2)]
-	pl := zzC07LayoutVals[zzChoice("pagelayout", len(zzC07LayoutVals))]
+	pl := zzC07LayoutVals[zzChoice("pagelayout", nvals)]
 	layoutOf[page] = pl
 	fm := "---\npk: PK\n"
 	if pl != "" {
@@ -101,7 +105,7 @@ func VerifC07_Graph() {
 		}
 		decided[p] = e
 		if e {
-			l := zzC07LayoutVals[zzChoice("layout", len(zzC07LayoutVals))]
+			l := zzC07LayoutVals[zzChoice("layout", nvals)]
 			own := zzBool("ownkeys")
 			layoutOf[p] = l
 			ownKeys[p] = own
@@ -308,4 +312,53 @@ func VerifC07_FilesChange() {
 			zzAssert(got == want, "C07.fileschange.chain-differs-from-fresh-engine")
 		}
 	}
+}
+
+// VerifC07_Limit: acyclic chains around the documented maximum of 100
+// templates, entered through a named first layout or through the default
+// base: the render succeeds up to the maximum and is an error (that writes
+// nothing) beyond it.
+func VerifC07_Limit() {
+	templates := []int{99, 100, 101, 102}[zzChoice("templates", zzBound("lengths", 4, 4))] // page included
+	viaBase := zzBool("viabase")
+	files := map[string]string{}
+	layoutName := func(k int) string { return "l" + strconv.Itoa(k) }
+	// layouts l1 .. l(templates-1); l1 is layouts/base.vuego when the chain is entered through the default
+	for k := 1; k < templates; k++ {
+		fm := ""
+		if k+1 < templates {
+			fm = "---\nlayout: " + layoutName(k+1) + "\n---\n"
+		}
+		body := fm + `<i>` + strconv.Itoa(k) + `</i><span v-html="content"></span>`
+		if k == 1 && viaBase {
+			files["layouts/base.vuego"] = body
+		} else {
+			files["layouts/"+layoutName(k)+".vuego"] = body
+		}
+	}
+	if viaBase {
+		files["p.vuego"] = "<p>PAGE</p>"
+	} else {
+		files["p.vuego"] = "---\nlayout: l1\n---\n<p>PAGE</p>"
+	}
+	out, err := zzRenderFile(newZZFS(files), "p.vuego", map[string]any{})
+	zzNote("templates", templates)
+	zzNote("outlen", len(out))
+	if err != nil {
+		zzNote("err", err.Error()[:zzMinInt(len(err.Error()), 120)])
+	}
+	if templates > 100 {
+		zzAssert(err != nil, "C07.limit.chain-beyond-the-maximum-must-fail")
+		zzAssert(out == "", "C07.limit.error-wrote-output")
+	} else {
+		zzAssert(err == nil, "C07.limit.chain-within-the-maximum-renders")
+		zzAssert(strings.Count(out, "PAGE") == 1 && strings.Contains(out, "<i>"+strconv.Itoa(templates-1)+"</i>"), "C07.limit.all-layouts-applied")
+	}
+}
+
+func zzMinInt(a, b int) int {
+	if a < b {
+		return a
+	}
+	return b
 }
